@@ -7,7 +7,7 @@ contract("shexer.utils.uri:longest_common_prefix",
              "len(result) == len(uri1) or len(result) == len(uri2) or str_at(uri1, len(result)) != str_at(uri2, len(result))"],
     raises=[],
     loops={0: {"invariant": ["uri1[:_i0] == uri2[:_i0]"]}},
-    props=["C17", "C08", "C09"], note="result is a common prefix and cannot be extended (maximality)")
+    props=["C17", "C08", "C09", "C19"], note="result is a common prefix and cannot be extended (maximality)")
 contract("shexer.utils.uri:longest_common_prefix@canary",
     params={"uri1": Str, "uri2": Str}, returns=Str,
     ensures=["result == uri1 or result == uri2 or len(result) == 0"],
@@ -38,7 +38,7 @@ contract("shexer.core.profiling.class_profiler:ClassProfiler._update_shape_min_i
     ],
     raises=[], modifies=["SEFD._base_dict[self._shape_feature_examples]"], props=["C17"],
     note="one step of the longest-common-prefix fold; uses the contract (not the body) of longest_common_prefix")
-CONTRACTS["shexer.core.profiling.class_profiler:ClassProfiler._update_shape_min_iri"].props = ["C17", "C08", "C09"]
+CONTRACTS["shexer.core.profiling.class_profiler:ClassProfiler._update_shape_min_iri"].props = ["C17", "C08", "C09", "C19"]
 
 lemma("lcp_fold_keeps_earlier_instances", {"earlier": Str, "prev": Str, "new": Str},
       hyps=["earlier.startswith(prev)", "prev.startswith(new)"], goal="earlier.startswith(new)", props=["C17"],
